@@ -33,7 +33,7 @@ def classify(spec, problems):
     k = kf.classify_plain(spec, probs) or _kf_static(spec, probs) or mcommon.kf6(spec, probs)
     if k:
         return k
-    if any(t in spec.tags for t in ("S1", "S2", "S3", "S4", "S5", "S6", "S8", "S9", "S10", "S11")):
+    if any(t in spec.tags for t in ("S1", "S2", "S3", "S4", "S5", "S6", "S8", "S9", "S10", "S11", "S12")):
         return c04.classify(spec, probs)
     return None
 
